@@ -180,4 +180,5 @@ def run(rep, wd, tier, seed):
 
 
 def replay(rep, wd, payload):
-    print('re-run the full check to reproduce (histories are enumerated by TLC, no seed involved)')
+    import sys
+    core.generic_replay(sys.modules[__name__], rep, wd, payload)
